@@ -605,6 +605,28 @@ Section PathProofs.
       simpl. rewrite andb_false_r. reflexivity.
     Qed.
 
+    (* FUNCTIONAL SPECIFICATION of the per-id path logic when the reject test fires on
+       separators and on "..": reject exactly when the pattern matches; otherwise "" and "."
+       name the root and every other id names the child root/id *)
+    Theorem get_rails_path_spec :
+      forall base id, abs_normal base -> re_search pat dotdot = true ->
+        get_rails_path base id =
+          if re_search pat id then Reject
+          else Accept (if str_eqb id [] || str_eqb id [dot] then base else base ++ tail_sep base ++ id).
+    Proof.
+      intros base id Hb Hdd. rewrite (get_rails_path_prefix_check_irrelevant base id Hb Hdd).
+      unfold Path.get_rails_path. destruct (re_search pat id) eqn:Erej; [reflexivity|].
+      simpl andb. cbv iota.
+      destruct Hb as [n [segs [Hn [Hs Eb]]]].
+      assert (Hid : ~ In sep id).
+      { intros Hin. rewrite (pat_rejects_char_sound pat sep id guard_sep Hin) in Erej. discriminate. }
+      pose proof (normpath_join_base n segs id Hn Hs Hid) as Hnp. cbv zeta in Hnp.
+      rewrite <- Eb in Hnp. rewrite Hnp.
+      destruct (str_eqb id [] || str_eqb id [dot]); [reflexivity|].
+      destruct (str_eqb id dotdot) eqn:E2; [|reflexivity].
+      apply str_eqb_true in E2. congruence.
+    Qed.
+
     (* an accepted path, seen through the root: the root is a proper prefix followed by a
        separator (segment-wise containment, which is what commonprefix does NOT test) *)
     Corollary get_rails_path_segment_prefix :
